@@ -1,6 +1,7 @@
 import SleapVerif.Model.Geometry
 import SleapVerif.Gen.TranslatedC04b
 import Mathlib.Tactic.Ring
+import Mathlib.Tactic.Linarith
 import Mathlib.Algebra.Order.Field.Basic
 
 /-!
@@ -68,5 +69,100 @@ theorem gen_bbox_span (cx cy bh bw : R) :
 example : make_centered_bboxes (10 : Rat) 20 4 6 =
     [[15 / 2, 37 / 2], [25 / 2, 37 / 2], [25 / 2, 43 / 2], [15 / 2, 43 / 2]] := by
   simp only [make_centered_bboxes]; norm_num
+
+
+/-! ## `find_instance_crop_size` -/
+
+/-- the per-instance values the untranslated loop code computes, as the hand model spells them:
+the `nanmax − nanmin` extents of the scaled x and y columns -/
+def modelItems (scaling : R) (insts : List (List (Option R × Option R))) : List (R × R) :=
+  insts.map fun inst =>
+    (extent (inst.map fun p => p.1.map (· * scaling)), extent (inst.map fun p => p.2.map (· * scaling)))
+
+theorem step_eq_lenStep (icast : Int → R) (noPad : Int) (scaling acc : R)
+    (inst : List (Option R × Option R)) :
+    find_instance_crop_size_step icast noPad acc
+        (extent (inst.map fun p => p.1.map (· * scaling)))
+        (extent (inst.map fun p => p.2.map (· * scaling)))
+      = lenStep scaling (icast noPad) acc inst := rfl
+
+/-- **the translated function is the hand model** `Geometry.findCropSize` (same early return, same
+running maximum in the same order, same padding / ceil / stride arithmetic), for every list of
+instances -/
+theorem gen_find_instance_crop_size_eq_model (ceil : R → Int) (icast : Int → R)
+    (insts : List (List (Option R × Option R))) (padding stride : Int) (scaling : R)
+    (minCrop? : Option Int) :
+    find_instance_crop_size ceil icast (modelItems scaling insts) padding stride minCrop? =
+      findCropSize ceil icast insts padding stride scaling minCrop? := by
+  unfold find_instance_crop_size findCropSize modelItems
+  simp only [List.foldl_map, step_eq_lenStep]
+
+theorem foldl_step_ge (icast : Int → R) (noPad : Int) :
+    ∀ (items : List (R × R)) (acc : R),
+      acc ≤ items.foldl (fun a d => find_instance_crop_size_step icast noPad a d.1 d.2) acc ∧
+      ∀ d ∈ items,
+        d.1 ≤ items.foldl (fun a d => find_instance_crop_size_step icast noPad a d.1 d.2) acc ∧
+        d.2 ≤ items.foldl (fun a d => find_instance_crop_size_step icast noPad a d.1 d.2) acc ∧
+        icast noPad ≤ items.foldl (fun a d => find_instance_crop_size_step icast noPad a d.1 d.2) acc := by
+  have hmax : ∀ a b : R, a ≤ npMaximum a b ∧ b ≤ npMaximum a b := by
+    intro a b; unfold npMaximum; split
+    · exact ⟨le_of_lt ‹_›, le_refl _⟩
+    · exact ⟨le_refl _, not_lt.mp ‹_›⟩
+  intro items
+  induction items with
+  | nil => intro acc; exact ⟨le_refl _, fun d hd => by cases hd⟩
+  | cons x xs ih =>
+    intro acc
+    simp only [List.foldl_cons]
+    obtain ⟨h0, hr⟩ := ih (find_instance_crop_size_step icast noPad acc x.1 x.2)
+    have s1 := hmax acc x.1
+    have s2 := hmax (npMaximum acc x.1) x.2
+    have s3 := hmax (npMaximum (npMaximum acc x.1) x.2) (icast noPad)
+    have hs : find_instance_crop_size_step icast noPad acc x.1 x.2 =
+        npMaximum (npMaximum (npMaximum acc x.1) x.2) (icast noPad) := rfl
+    rw [hs] at h0 hr ⊢
+    refine ⟨by linarith [s1.1, s2.1, s3.1], ?_⟩
+    intro d hd
+    rcases List.mem_cons.mp hd with rfl | hd
+    · exact ⟨by linarith [s1.2, s2.1, s3.1], by linarith [s2.2, s3.1], by linarith [s3.2]⟩
+    · exact hr d hd
+
+/-- directly about the generated definition (for arbitrary per-instance extents): the crop size is
+a multiple of the stride; when it is computed (the user did not fix a stride-compatible size) it
+covers every instance — `extent + padding ≤ crop` on both axes — and is at least the requested
+minimum; a stride-compatible user size is returned as it is -/
+theorem gen_cropsize_multiple_and_covers (ceil : R → Int) (hceil : ∀ x, x ≤ ((ceil x : Int) : R))
+    (items : List (R × R)) (padding stride : Int) (hs : 0 < stride) (minCrop? : Option Int) :
+    let r := find_instance_crop_size ceil (fun i => (i : R)) items padding stride minCrop?
+    r % stride = 0 ∧
+    (¬ (minCrop?.getD 0 > 0 ∧ Int.fmod (minCrop?.getD 0) stride = 0) →
+      ∀ d ∈ items, d.1 + (padding : R) ≤ (r : R) ∧ d.2 + (padding : R) ≤ (r : R) ∧
+        ((minCrop?.getD 0 : Int) : R) ≤ (r : R)) ∧
+    ((minCrop?.getD 0 > 0 ∧ Int.fmod (minCrop?.getD 0) stride = 0) → r = minCrop?.getD 0) := by
+  have hsR : (0 : R) < (stride : R) := by exact_mod_cast hs
+  simp only [find_instance_crop_size]
+  by_cases hc : minCrop?.getD 0 > 0 ∧ Int.fmod (minCrop?.getD 0) stride = 0
+  · rw [if_pos hc]
+    refine ⟨?_, fun h => absurd hc h, fun _ => rfl⟩
+    rw [← Int.fmod_eq_emod_of_nonneg _ hs.le]; exact hc.2
+  · rw [if_neg hc]
+    refine ⟨Int.mul_emod_left _ _, ?_, fun h => absurd h hc⟩
+    intro _ d hd
+    obtain ⟨_, hr⟩ := foldl_step_ge (fun i => ((i : Int) : R)) (minCrop?.getD 0 - padding) items 0
+    obtain ⟨gx, gy, gn⟩ := hr d hd
+    generalize items.foldl (fun a d => find_instance_crop_size_step (fun i => ((i : Int) : R))
+      (minCrop?.getD 0 - padding) a d.1 d.2) 0 = L at *
+    have hcl := hceil ((L + (padding : R)) / (stride : R))
+    have hcov : L + (padding : R) ≤ ((ceil ((L + (padding : R)) / (stride : R)) * stride : Int) : R) := by
+      push_cast
+      have := (div_le_iff₀ hsR).mp hcl
+      linarith
+    push_cast at gn
+    refine ⟨by linarith, by linarith, by linarith⟩
+
+example : find_instance_crop_size Rat.ceil (fun i => (i : Rat)) [((37 : Rat) / 2, 12)] 4 16 none = 32 ∧
+    find_instance_crop_size Rat.ceil (fun i => (i : Rat)) [((37 : Rat) / 2, 12)] 4 16 (some 64) = 64 ∧
+    find_instance_crop_size Rat.ceil (fun i => (i : Rat)) [((37 : Rat) / 2, 12)] 0 16 (some 100) = 112 := by
+  decide +kernel
 
 end SleapVerif.TranslatedC04b
